@@ -12,7 +12,10 @@ NIN = 3
 OPT = ("def", "opt", [("sel", "int"), ("x", "int")], "int?", [("if", [(B("==", V("sel"), I(1)), [("return", ("nil",))])], None), ("return", V("x"))])
 KINDS = ["assert", "div", "get", "index", "remove"]
 ORDERS = [("fn", "loop", "method", "closure", "rec", "else", "fn"), ("method", "fn", "rec", "loop", "fn", "closure", "else"),
-          ("closure", "else", "fn", "rec", "method", "loop", "fn")]
+          ("closure", "else", "fn", "rec", "method", "loop", "fn"),
+          # the two innermost levels live in an imported module (exported functions; the module has asserts of its own)
+          ("fn", "method", "loop", "closure", "else", "mod", "mod")]
+LIB = "lib17"
 
 
 def fail_stmts(kind):
@@ -48,10 +51,18 @@ def program(kind, order, _unused=None):
     prog = [("assign", "in0", ("in", 0)), ("assign", "in1", ("in", 1)), ("assign", "in2", ("in", 2)), OPT, ("assign", "salt", I(1))]
     # levels are defined innermost first so that each can name the next
     nxt = B("+", V("a"), V("b"))
+    lib = [("print", ("str", "lib:init")), OPT]
     for k in range(len(styles), 0, -1):
         st = styles[k - 1]
         name = "g%d" % k
-        if st == "method":
+        if st == "mod":
+            lib.append(("export", name, ("fnlit", [("a", "int"), ("b", "int")], "int", level_body(k, "fn", kind, nxt)), "fn(int, int) -> int"))
+            nxt = ("call", name, [V("a"), V("b")])
+            if k == 1 or styles[k - 2] != "mod":
+                nxt = ("mcall", V(LIB), name, [V("a"), V("b")])
+                lib.append(("assert", B("==", I(1), I(1))))
+                prog.append(("import", LIB))
+        elif st == "method":
             prog.append(("class", "K%d" % k, [("z", "int")], [], [("setfield", V("self"), "z", I(0))],
                          [("m", [("a", "int"), ("b", "int")], "int", level_body(k, st, kind, nxt))]))
             prog.append(("assign", "o%d" % k, ("call", "K%d" % k, [])))
@@ -74,6 +85,8 @@ def program(kind, order, _unused=None):
     prog.append(("if", [(B("==", V("in0"), I(0)), [("print", ("str", "depth0"))] + [s for s in _rename(fail_stmts(kind))])], None))
     prog.append(("print", _rename([nxt])[0]))
     prog.append(("print", ("str", "end")))
+    if "mod" in styles:
+        return {"entry": prog, "modules": {LIB: lib}}
     return prog
 
 
@@ -99,6 +112,10 @@ def describe(item):
     return "failure `%s` along call chain %s" % (item[0], "/".join(ORDERS[item[1]]))
 
 
+def level_in_module(order, level):
+    return 1 <= level <= 7 and ORDERS[order][level - 1] == "mod"
+
+
 def assert_position(src, level):
     """(line, column), 1-based, of the `assert` statement that fails at `level` (1..7: inside g<level> / class K<level>; 0: module
     level, after `print "depth0"`), read off the rendered source text - independent of what the compiler wrote into the instruction"""
@@ -108,7 +125,7 @@ def assert_position(src, level):
         t = l.strip()
         if level == 0 and t == 'print "depth0"':
             start = i
-        elif level > 0 and (t.startswith("g%d = fn(" % level) or t.startswith("class K%d " % level)):
+        elif level > 0 and (t.startswith("g%d = fn(" % level) or t.startswith("class K%d " % level) or t.startswith("export g%d:" % level)):
             start = i
     if start is None:
         return None
